@@ -2,8 +2,11 @@
 //
 // Line protocol (one result line per op line, flushed immediately so that a sanitizer abort identifies its op):
 //   run  <ep> <seed> <p0> <p1> <p2> <p3> <hex>   one execution of entry point <ep>
-//   run2 <ep> <seed> <p0> <p1> <p2> <p3> <hex>   the same twice with different junk in fresh heap memory and output
-//                                                buffers; the observable result must not depend on the junk
+//   run2 <ep> <seed> <p0> <p1> <p2> <p3> <hex>   the same twice: once on a fresh handle, once on a REUSED handle (a lzma_stream
+//                                                that first ran 1-2 seeded other/same coders on the same bytes, ended in
+//                                                success / error / abandoned mid-stream, and is re-initialised without
+//                                                lzma_end), with different junk in fresh heap memory and output buffers;
+//                                                the observable result must be identical
 //   gen  <format> <variant> <hex>                valid file produced by the real encoders (c04_gen.c)
 //   idx  ...                                     real index macros on a grid (c04_idx.c)
 // Result line of run/run2:
@@ -173,7 +176,7 @@ uint8_t *c04_dup(const uint8_t *p, size_t n)
 // watchdog
 // ---------------------------------------------------------------------------------------------------------------
 static char wd_msg[600];
-static unsigned wd_wall = 150, wd_cpu = 60;
+static unsigned wd_wall = 300, wd_cpu = 60;
 
 static void on_alarm(int sig)
 {
@@ -209,7 +212,7 @@ static void exec_once(const c04_op *op, c04_res *r)
 	r->ret = -1;
 	c04_live_bytes = c04_live_blocks = c04_peak_bytes = c04_n_allocs = c04_n_refused = 0;
 	alloc_broken = 0;
-	if (!c04_run_stream_ep(op, r) && !c04_run_parse_ep(op, r))
+	if (!c04_run_stream_ep(op, r, NULL, 0) && !c04_run_parse_ep(op, r, false))
 		c04_bad(r, "harness:unknown-entry-point");
 	if (c04_live_bytes != 0 || c04_live_blocks != 0)
 		c04_bad(r, "leak:%zu-bytes-in-%zu-blocks-live-after-end", c04_live_bytes, c04_live_blocks);
@@ -217,6 +220,97 @@ static void exec_once(const c04_op *op, c04_res *r)
 		c04_bad(r, "allocator:%s", alloc_broken == 2 ? "free-of-foreign-pointer" : "table-overflow");
 	if (c04_live_blocks != 0) {
 		// forget the leaked blocks so that the next op starts clean (they stay allocated: LSan reports them too)
+		memset(slots, 0, sizeof(slots));
+		c04_live_bytes = c04_live_blocks = 0;
+	}
+}
+
+// The same execution on a REUSED handle: a lzma_stream that already ran another (or the same) coder on the same bytes and
+// was left in whatever state that run ended in (success, error, or abandoned in the middle), re-initialised without
+// lzma_end. Everything is derived from the op's seed, so the op line alone replays it. Allocator balance is checked
+// after the single final lzma_end.
+static const char *canned_for(const char *ep)
+{
+	// small valid inputs (tests/files/good-1-check-crc32.xz and its Block / LZMA2 payload / Index, good-known_size-with_eopm.lzma,
+	// good-1-v1.lz) so that a priming run can also END IN SUCCESS whatever the op's own bytes are
+	if (!strcmp(ep, "stream") || !strcmp(ep, "mt") || !strcmp(ep, "auto") || !strcmp(ep, "fileinfo"))
+		return "fd377a585a0000016922de360200210108000000d80f231301000548656c6c6f0a020006576f726c64210a0043a3a2150001240d3028dfaf9042990d010000000001595a";
+	if (!strcmp(ep, "alone"))
+		return "5d001000000d0000000000000000241949986f051527270d7678d02a681715ffff75f80000";
+	if (!strcmp(ep, "lzip"))
+		return "4c5a4950010c00241949986f051527270d7678d02a681715ffff75f8000043a3a2150d000000000000003200000000000000";
+	if (!strcmp(ep, "raw"))
+		return "01000548656c6c6f0a020006576f726c64210a00";
+	if (!strcmp(ep, "block"))
+		return "0200210108000000d80f231301000548656c6c6f0a020006576f726c64210a0043a3a215";
+	if (!strcmp(ep, "index"))
+		return "0001240d3028dfaf";
+	return NULL;
+}
+
+static void exec_reused(const c04_op *op, c04_res *r)
+{
+	memset(r, 0, sizeof(*r));
+	r->init_ret = -1;
+	r->ret = -1;
+	c04_live_bytes = c04_live_blocks = c04_peak_bytes = c04_n_allocs = c04_n_refused = 0;
+	alloc_broken = 0;
+	if (c04_is_stream_ep(op->ep)) {
+		static const char *const eps[] = { "stream", "mt", "auto", "alone", "lzip", "micro", "raw", "block", "index", "fileinfo" };
+		c04_rng g = { op->seed * 0x9E3779B97F4A7C15ull + 0x5EED };
+		lzma_stream h = LZMA_STREAM_INIT;
+		h.allocator = &c04_alloc;
+		const unsigned rounds = 1 + (unsigned)c04_below(&g, 2);
+		for (unsigned k = 0; k < rounds && r->bad[0] == '\0'; ++k) {
+			c04_op pop = *op;
+			c04_res pr;
+			memset(&pr, 0, sizeof(pr));
+			pr.init_ret = pr.ret = -1;
+			pop.seed = c04_next(&g);
+			if (c04_below(&g, 2) == 0) {
+				pop.ep = eps[c04_below(&g, sizeof(eps) / sizeof(eps[0]))];
+				pop.p[0] = !strcmp(pop.ep, "block") ? 1 : 0;
+				pop.p[1] = !strcmp(pop.ep, "micro") ? 100 : UINT64_MAX;
+				pop.p[2] = !strcmp(pop.ep, "mt") ? 2 : 0;
+				pop.p[3] = !strcmp(pop.ep, "micro") ? 4096 : UINT64_MAX;
+			}
+			const unsigned abandon = c04_below(&g, 2) == 0 ? 1 + (unsigned)c04_below(&g, 40) : 0;
+			uint8_t *canned = NULL;
+			if (c04_below(&g, 2) == 0 && canned_for(pop.ep) != NULL) {
+				size_t cn;
+				canned = hp_hex(canned_for(pop.ep), &cn);
+				pop.in = canned;
+				pop.in_len = cn;
+				if (pop.ep != op->ep) {
+					pop.p[0] = !strcmp(pop.ep, "block") ? 1 : 0;
+					pop.p[1] = UINT64_MAX;
+				} else if (!strcmp(pop.ep, "raw")) {
+					pop.p[0] = 0;
+				} else if (!strcmp(pop.ep, "block")) {
+					pop.p[0] = 1;
+				}
+			}
+			c04_n_refused = 0;
+			c04_run_stream_ep(&pop, &pr, &h, abandon);
+			free(canned);
+			if (pr.bad[0] != '\0')
+				c04_bad(r, "priming(%s):%s", pop.ep, pr.bad);
+		}
+		if (r->bad[0] == '\0') {
+			c04_n_refused = 0;
+			c04_run_stream_ep(op, r, &h, 0);
+		}
+		lzma_end(&h);
+		if (h.internal != NULL)
+			c04_bad(r, "lzma_end-left-internal");
+	} else if (!c04_run_parse_ep(op, r, true)) {
+		c04_bad(r, "harness:unknown-entry-point");
+	}
+	if (c04_live_bytes != 0 || c04_live_blocks != 0)
+		c04_bad(r, "leak(reused-handle):%zu-bytes-in-%zu-blocks-live-after-end", c04_live_bytes, c04_live_blocks);
+	if (alloc_broken)
+		c04_bad(r, "allocator:%s", alloc_broken == 2 ? "free-of-foreign-pointer" : "table-overflow");
+	if (c04_live_blocks != 0) {
 		memset(slots, 0, sizeof(slots));
 		c04_live_bytes = c04_live_blocks = 0;
 	}
@@ -265,7 +359,7 @@ int main(void)
 			exec_once(&op, &r1);
 			if (!strcmp(cmd, "run2") && r1.bad[0] == '\0') {
 				c04_junk = 0x00;
-				exec_once(&op, &r2);
+				exec_reused(&op, &r2);
 				if (r2.bad[0] != '\0') {
 					r1 = r2;
 				} else if (r1.timing) {
@@ -273,12 +367,12 @@ int main(void)
 					// only a successful decode must give the same bytes
 					if (r1.ret == LZMA_STREAM_END && r2.ret == LZMA_STREAM_END && !r1.capped && !r2.capped
 							&& (r1.out_total != r2.out_total || r1.crc != r2.crc))
-						c04_bad(&r1, "result-depends-on-uninitialised-memory(mt):out=%" PRIu64 "/%" PRIu64 ",crc=%" PRIu32 "/%" PRIu32,
+						c04_bad(&r1, "fresh-vs-reused-handle-or-junk-results-differ(mt):out=%" PRIu64 "/%" PRIu64 ",crc=%" PRIu32 "/%" PRIu32,
 								r1.out_total, r2.out_total, r1.crc, r2.crc);
 				} else if (r1.init_ret != r2.init_ret || r1.ret != r2.ret || r1.in_total != r2.in_total
 						|| r1.out_total != r2.out_total || r1.crc != r2.crc || r1.calls != r2.calls
 						|| r1.aux != r2.aux) {
-					c04_bad(&r1, "result-depends-on-uninitialised-memory:ret=%d/%d,in=%" PRIu64 "/%" PRIu64 ",out=%" PRIu64
+					c04_bad(&r1, "fresh-vs-reused-handle-or-junk-results-differ:ret=%d/%d,in=%" PRIu64 "/%" PRIu64 ",out=%" PRIu64
 							"/%" PRIu64 ",crc=%" PRIu32 "/%" PRIu32 ",calls=%" PRIu64 "/%" PRIu64,
 							r1.ret, r2.ret, r1.in_total, r2.in_total, r1.out_total, r2.out_total, r1.crc, r2.crc,
 							r1.calls, r2.calls);
